@@ -44,6 +44,13 @@ def _aliases(fi, root, field):
         if isinstance(n, ast.Assign) and len(n.targets) == 1 and isinstance(n.targets[0], ast.Name):
             if _mentions(n.value, root, field, set()):
                 out.add(n.targets[0].id)
+        # lst.extend(root.field) / lst += root.field / lst.append(root.field): lst now holds its elements
+        elif isinstance(n, ast.Call) and isinstance(n.func, ast.Attribute) and n.func.attr in ('extend', 'append') \
+                and isinstance(n.func.value, ast.Name) and n.args and _mentions(n.args[0], root, field, set()):
+            out.add(n.func.value.id)
+        elif isinstance(n, ast.AugAssign) and isinstance(n.target, ast.Name) and isinstance(n.op, ast.Add) and \
+                _mentions(n.value, root, field, set()):
+            out.add(n.target.id)
     return out
 
 
